@@ -24,7 +24,7 @@ RULE = ("degenerate training sets: duplicated rows, a constant column, fewer dis
 TRUSTED = ["'finite' is a float notion: the theorems show every denominator / log argument of the model is in range; NaN/inf freedom itself "
            "is established only on the sampled runs (always-on search)"]
 ASSUMPTIONS = ["zero-weight components (an empty k-means cluster handed to the GMM) rely on IEEE log 0 = -inf; excluded from the real-number theorems"]
-KINDS = ["dup", "const", "few", "outlier", "empty"]
+KINDS = ["dup", "const", "few", "outlier", "empty", "manyconst", "bigscale"]
 SWITCHES = list(itertools.product([False, True], repeat=3))
 
 
@@ -34,6 +34,10 @@ def degenerate(ctx, i):
     K = int(r.integers(2, 4))
     D = int(r.integers(1, 4))
     N = int(r.integers(2 * K + 2, 24))
+    if kind == "manyconst":
+        D = int(r.integers(24, 48))  # many features, most of them constant: their variances sit at the floor, the product of a Gaussian's
+    elif kind == "bigscale":         # variances is far outside the double range (each of them is fine) - likewise for un-normalised features
+        D = int(r.integers(50, 100))
     centers = r.normal(0, 3, (K, D))
     x = centers[r.integers(0, K, N)] + 0.5 * r.normal(size=(N, D))
     cent = centers + 0.1 * r.normal(size=(K, D))
@@ -48,6 +52,12 @@ def degenerate(ctx, i):
         x[0] = x[0] + 1e6
     elif kind == "empty":
         cent[int(r.integers(0, K))] = centers.mean(0) + 1e3
+    elif kind == "manyconst":
+        x[:, 2:] = r.normal(size=D - 2)
+        cent[:, 2:] = x[0, 2:]
+    elif kind == "bigscale":
+        sc_ = float(10.0 ** r.choice([-4.0, 4.0]))
+        x, cent = x * sc_, cent * sc_
     return dict(kind=kind, K=K, D=D, x=x, cent=cent, sizes=gen.random_composition(r, N))
 
 
